@@ -68,7 +68,7 @@ def gen(tier, rng, shard, nshards):
         dt = S.pick(rng, ["f8", "f8", "c16", "c16"])
         kind = S.pick(rng, ["herm-definite", "herm-indefinite", "herm-indefinite", "general", "general", "Diagonal", "Triangular",
                             "Triangular", "Identity"])
-        n = int(rng.integers(1, 9))
+        n = int(rng.integers(1, 9)) if rng.random() < 0.75 else int(S.pick(rng, [12, 20, 30] + ([50, 80] if tier == "thorough" else [])))
         node = gen_matrix(rng, kind, n, dt)
         k = int(rng.integers(1, n + 1)) if rng.random() < 0.8 else n
         which = S.pick(rng, ["LM", "SM"])
@@ -89,7 +89,7 @@ def make_alg(case, n):
     from cola.linalg import Arnoldi, Auto, Eig, Eigh, Lanczos, PowerIteration
     kw = {} if case["cap"] == "default" else {"max_iters": n if case["cap"] == "n" else n + 4}
     return {"Auto": Auto(), "Eigh": Eigh(), "Eig": Eig(), "Lanczos": Lanczos(tol=1e-13, **kw), "Arnoldi": Arnoldi(tol=1e-13, **kw),
-            "PowerIteration": PowerIteration(tol=1e-9, max_iter=300)}[case["alg"]]
+            "PowerIteration": PowerIteration(tol=1e-13, max_iter=400)}[case["alg"]]
 
 
 def selection_ok(vals, ref_eigs, which, tol):
@@ -148,10 +148,19 @@ def run_case(ctx, case):
         preds["cap"] = case["cap"]
     mags = np.sort(np.abs(ref_eigs))[::-1]
     if power:
-        # bounded-progress regime of power iteration: strictly dominant eigenvalue (ratio >= 1.25 by construction of the
-        # magnitudes 1, 1.5, 2, ... only when n is small); judged only when the dominance ratio guarantees convergence
+        # bounded-progress regime of power iteration: dominance ratio <= 0.8.  The routine stops when two successive Rayleigh
+        # quotients differ by less than tol (relative).  That rule implies accuracy only where the quotient converges
+        # monotonically (Hermitian definite); with a sub-dominant complex pair (or a sign change of the increments for
+        # indefinite spectra) the difference passes through zero and the loop can stop early with an O(1e-3) error - a few per
+        # cent of such inputs with the default tol=1e-6 (seen on the thorough tier).  The statement names no accuracy for
+        # power iteration, so accuracy is judged (a) with an explicit PowerIteration(tol=1e-13, max_iter=400), where a
+        # premature stop above the tolerance has probability < 1e-8 per case and 0.8**400 is far below rounding, and
+        # (b) with the default algorithm only on Hermitian definite inputs (monotone => error <= 2 tol).
         if n > 1 and mags[1] / mags[0] > 0.8:
             ctx.note("skipped_power_iteration_weak_dominance")
+            return
+        if case["alg"] != "PowerIteration" and case["kind"] != "herm-definite" and n > 1:
+            ctx.note("default_power_iteration_accuracy_not_judged_nonmonotone_spectrum")
             return
         preds["dominant_negative_or_complex"] = bool(abs(np.angle(ref_eigs[np.argmax(np.abs(ref_eigs))])) > 1e-9)
         tol = 1e-4 * normA
